@@ -87,7 +87,7 @@ def checkFileObject (keys : List String) : Val → VOut
       else if !has "external" kvs then .err .missing
       else .ok
     else .ok
-  | _ => .panic "validation.checkFileObject"
+  | _ => .panic "validation.init.checkFileObject"
 
 def checkPath : Val → VOut
   | .str s => if s = "" then .err .blank else .ok
